@@ -35,11 +35,17 @@ RAPIDFUZZ_MODULE = {"levenshtein": "Levenshtein", "damerau_levenshtein": "Damera
 # pairs on which the documented metrics differ from their look-alikes (OSA vs unrestricted Damerau, Levenshtein vs Damerau,
 # Jaro vs Jaro-Winkler): every backend must return the same value for the function a role emits
 PROBE_PAIRS = [("ca", "abc"), ("brain", "briean"), ("martha", "marhata"), ("badc", "acbd"), ("ab", "ba"), ("martha", "marhta"),
-               ("dixon", "dicksonx"), ("kitten", "sitting"), ("smith", "smtih"), ("abcd", "abcd")]
+               ("dixon", "dicksonx"), ("kitten", "sitting"), ("smith", "smtih"), ("abcd", "abcd"),
+               # an EMPTY string is a value, not NULL (two empty strings are left out: Jaro convention differs by engine)
+               ("", "x"), ("", "ng"), ("ab", "")]
 
 
 def probe_values(ex, name):
-    return [float(ex(f"SELECT {name}('{a}', '{b}')")) for a, b in PROBE_PAIRS]
+    out = []
+    for a, b in PROBE_PAIRS:
+        v = ex(f"SELECT {name}('{a}', '{b}')")
+        out.append(None if v is None else float(v))
+    return out
 
 
 def sqlite_registered_udfs():
